@@ -345,11 +345,20 @@ func cmdCheck(args []string) {
 			kf = append(kf, k)
 		}
 		sort.Strings(kf)
+		level, explanation := "proof", ""
+		if b, err := os.ReadFile(filepath.Join(*verifDir, "levels", *prop+".txt")); err == nil {
+			// first line: the level claimed in MANIFEST.json; the rest: what the obligations do and do not establish
+			parts := strings.SplitN(string(b), "\n", 2)
+			level = strings.TrimSpace(parts[0])
+			if len(parts) > 1 {
+				explanation = strings.TrimSpace(parts[1])
+			}
+		}
 		ev := map[string]interface{}{
 			"property_id": *prop,
 			"tier":        *tier,
 			"seed":        seed,
-			"level":       "proof",
+			"level":       level,
 			"coverage": map[string]interface{}{
 				"obligations":  nObl,
 				"discharged":   nDis,
@@ -378,6 +387,9 @@ func cmdCheck(args []string) {
 			}, sortedKeys(trustSet)...),
 			"wall_s":     round2(wall),
 			"violations": violations,
+		}
+		if explanation != "" {
+			ev["coverage"].(map[string]interface{})["explanation"] = explanation
 		}
 		os.MkdirAll(*evdir, 0o755)
 		b, _ := json.MarshalIndent(ev, "", " ")
